@@ -231,29 +231,31 @@ def effective_hints(P, hints):
     return int(a1), int(a2), (None if op is None else int(op))
 
 
-def amplification_K(P, hints):
-    """A-priori bound on how much three-point anchoring amplifies per-atom noise (DESIGN 3.2)."""
+def amplification_K(P, hints, extra=None):
+    """A-priori bound on how much three-point anchoring amplifies per-atom noise (DESIGN 3.2).  `extra`: further
+    points rigidly attached to the pattern (replacement atoms) whose placement error is to be bounded as well; the
+    result is infinite when their placement is not determined by the pattern at all (off-axis point, collinear pattern)."""
     P = np.asarray(P, float)
     n = len(P)
+    Q = P if extra is None or len(extra) == 0 else np.vstack([P, np.asarray(extra, float).reshape(-1, 3)])
     if n == 1:
-        return 1.0
+        return 1.0 if len(Q) == 1 or np.linalg.norm(Q - P[0], axis=1).max() < 1e-9 else float("inf")
     a1, a2, op = effective_hints(P, hints)
-    D = diameter(P)
     ax = P[a2] - P[a1]
     L = float(np.linalg.norm(ax))
     if L <= 0:
         return float("inf")
-    # reach of the pattern from the anchor atom a1 (the lever arm of a tilt error)
-    reach = float(np.max(np.linalg.norm(P - P[a1], axis=1)))
+    # reach from the anchor atom a1 (the lever arm of a tilt error)
+    reach = float(np.max(np.linalg.norm(Q - P[a1], axis=1)))
     K = 2.0 + 2.0 * reach / L
-    if n > 2 and op is not None:
-        rel = P - P[a1]
-        h = np.linalg.norm(rel - np.outer(rel @ ax / L ** 2, ax), axis=1)
-        hmax, hop = float(h.max()), float(h[op])
-        if hmax > 1e-9:
-            if hop <= 1e-9:
-                return float("inf")
-            K += 2.0 * (1.0 + reach / L) * hmax / hop
+    relq = Q - P[a1]
+    hq = np.linalg.norm(relq - np.outer(relq @ ax / L ** 2, ax), axis=1)
+    hmax = float(hq.max())
+    if hmax > 1e-9:
+        hop = float(hq[op]) if (n > 2 and op is not None) else 0.0
+        if hop <= 1e-9:
+            return float("inf")
+        K += 2.0 * (1.0 + reach / L) * hmax / hop
     return K
 
 
